@@ -66,6 +66,7 @@ func (c *c04) Cases(tier string, seed int64) []core.Case {
 	cs = append(cs, core.MkCase("files-plus-volumes-256", p1Params{r.Int63(), "sum256"}))
 	cs = append(cs, core.MkCase("files-255-plus-1-volume", p1Params{r.Int63(), "max255files"}))
 	cs = append(cs, core.MkCase("singular-constructed", p1Params{r.Int63(), "singular"}))
+	cs = append(cs, core.MkCase("upper-case-extension", p1Params{r.Int63(), "upper-ext"}))
 	for i := 0; i < map[string]int{"quick": 3, "thorough": 40}[tier]; i++ {
 		cs = append(cs, core.MkCase(fmt.Sprintf("big-files-%d", i), p1Params{r.Int63(), "big"}))
 	}
@@ -108,10 +109,16 @@ func genP1Files(rng *rand.Rand, nf int) []scen.File {
 		default:
 			n = 1 + rng.Intn(600)
 		}
-		if n > 0 {
+		data := scen.GenData(rng, []string{"random", "random", "zeros", "period"}[rng.Intn(4)], n, 16)
+		if len(fs) > 0 && rng.Intn(6) == 0 {
+			// the same bytes under a second name
+			data = append([]byte(nil), fs[rng.Intn(len(fs))].Data...)
+			n = len(data)
+		}
+		if len(data) > 0 {
 			hasNonEmpty = true
 		}
-		fs = append(fs, scen.File{Name: name, Data: scen.GenData(rng, []string{"random", "random", "zeros", "period"}[rng.Intn(4)], n, 16)})
+		fs = append(fs, scen.File{Name: name, Data: data})
 	}
 	if !hasNonEmpty {
 		fs[0].Data = scen.GenData(rng, "random", 1+rng.Intn(100), 16)
@@ -362,11 +369,66 @@ func keysOf(m map[int]bool) []int {
 	return k
 }
 
+// runUpperExt: an index path whose extension is spelled in another case.
+// Create may refuse it; if it accepts, the set it wrote must work under the
+// very path it was given.
+func (c *c04) runUpperExt(r *core.R, rng *rand.Rand) {
+	for _, ext := range []string{".PAR", ".Par", ".pAR"} {
+		root, err := os.MkdirTemp("", "c04u-")
+		if err != nil {
+			r.Inconclusive("tempdir: %v", err)
+			return
+		}
+		dir := filepath.Join(root, "set")
+		os.MkdirAll(dir, 0755)
+		var paths []string
+		var datas [][]byte
+		for i := 0; i < 3; i++ {
+			b := scen.GenData(rng, "random", 10+rng.Intn(300), 16)
+			pth := filepath.Join(dir, fmt.Sprintf("U%d.DAT", i))
+			os.WriteFile(pth, b, 0644)
+			paths = append(paths, pth)
+			datas = append(datas, b)
+		}
+		idx := filepath.Join(dir, "SET"+ext)
+		var cerr error
+		if pi := core.Protect(func() { cerr = par1.Create(idx, paths, par1.CreateOptions{NumParityFiles: 2}) }); pi != nil {
+			r.Violate(core.CrashSig("par1.Create", pi.Frame, pi.Msg), "Create(%q) panicked: %s", "SET"+ext, pi.Msg)
+		} else if cerr != nil {
+			r.Count("upper_case_extension_refused", 1)
+		} else {
+			os.Remove(paths[1])
+			var vr par1.VerifyResult
+			var verr, rerr error
+			pi := core.Protect(func() {
+				vr, verr = par1.Verify(idx, par1.VerifyOptions{})
+				_, rerr = par1.Repair(idx, par1.RepairOptions{})
+			})
+			b, _ := os.ReadFile(paths[1])
+			switch {
+			case pi != nil:
+				r.Violate(core.CrashSig("par1", pi.Frame, pi.Msg), "set created as %q: panic %s", "SET"+ext, pi.Msg)
+			case verr != nil || vr.FileCounts.UsableParityFileCount != 2 || vr.FileCounts.UnusableDataFileCount != 1:
+				r.Violate("parity-count-wrong", "Create(%q) succeeded; one file deleted; Verify of the same path: err=%v counts=%+v (2 volumes and 1 unusable file expected)", "SET"+ext, verr, vr.FileCounts)
+			case rerr != nil || string(b) != string(datas[1]):
+				r.Violate("repair-failed-within-capacity", "Create(%q) succeeded; one file deleted; Repair of the same path: %v", "SET"+ext, rerr)
+			}
+			r.Count("upper_case_extension_accepted", 1)
+		}
+		r.Key("upper-ext|%s|%v", ext, cerr == nil)
+		os.RemoveAll(root)
+	}
+}
+
 func (c *c04) Run(cs core.Case) core.Result {
 	var p p1Params
 	core.Decode(cs, &p)
 	r := core.NewR(cs)
 	rng := rand.New(rand.NewSource(p.Seed))
+	if p.Kind == "upper-ext" {
+		c.runUpperExt(r, rng)
+		return r.Done()
+	}
 	var nf, nv int
 	exh := false
 	kinds := []string{"delete", "flip", "truncate", "append", "replace", "flip-tail", "cut-16k"}
